@@ -124,6 +124,88 @@ def redecoration() -> Optional[dict]:
     return None
 
 
+def repeated_calls(prefix: str = "C08") -> Optional[dict]:
+    """A decorated function is called many times: every call with equal arguments ends the same way - the wrapper
+    keeps nothing from one call to the next (which names are ignored, which validators apply)."""
+    from koda_validate.signature import InvalidArgsError, validate_signature
+    from ..corr import drive
+    for is_async in (False, True):
+        ran: list = []
+        if is_async:
+            async def f(a, *rest, **extra):
+                ran.append((a, rest, dict(extra)))
+                return a
+        else:
+            def f(a, *rest, **extra):  # type: ignore[misc]
+                ran.append((a, rest, dict(extra)))
+                return a
+        f.__annotations__ = {"a": int, "rest": int, "extra": int, "return": int}
+        w = validate_signature(f, ignore_args={"skip", "a_note"})
+        calls = [((1,), {"skip": "not an int"}), ((1,), {"skip": "not an int"}), ((1,), {"k": 2, "skip": "x"}), ((1,), {"skip": "x", "k": 2}),
+                 ((1, 2, 3), {"a_note": None, "skip": object()}), ((1,), {"k": "bad", "skip": "x"}), ((1,), {"skip": "not an int"}), (("no",), {"skip": 1})]
+        first: dict = {}
+        for i, (args, kwargs) in enumerate(calls):
+            del ran[:]
+            try:
+                r = w(*args, **kwargs)
+                r = drive(r) if is_async else r
+                out = ("returned", r, len(ran))
+            except InvalidArgsError as e:
+                out = ("rejected", tuple(sorted(e.errs)), len(ran))
+            except BaseException as e:  # noqa
+                out = ("raised", type(e).__name__, len(ran))
+            want_reject = tuple(sorted(k for k, v in kwargs.items() if k not in ("skip", "a_note") and type(v) is not int)) + (("a",) if type(args[0]) is not int else ())
+            want = ("rejected", tuple(sorted(want_reject)), 0) if want_reject else ("returned", args[0], 1)
+            if out != want:
+                return {"signature": f"{prefix}:repeated-calls",
+                        "what": f"{'async ' if is_async else ''}f(a: int, *rest: int, **extra: int) decorated with ignore_args={{'skip', 'a_note'}}: call {i} "
+                                f"f{args!r} {kwargs!r} ended as {out!r}; expected {want!r} (earlier calls: {i})"}
+    return None
+
+
+def parameter_names() -> Optional[dict]:
+    """Which argument is checked by which validator depends on the parameter's kind and annotation, not on its
+    *name*: parameters (and **kwargs entries) called self, cls, args, kwargs, return, _ are checked like any other."""
+    from koda_validate.signature import InvalidArgsError, validate_signature
+    from ..corr import drive
+    for nm in ("self", "cls", "args", "kwargs", "_", "return_", "func", "val", "validator"):
+        for is_async in (False, True):
+            for shape in ("posonly", "poskw", "kwonly", "extra"):
+                ran: list = []
+                src = {"posonly": f"def f({nm}, /):\n    ran.append({nm})\n    return 1\n",
+                       "poskw": f"def f({nm}):\n    ran.append({nm})\n    return 1\n",
+                       "kwonly": f"def f(*, {nm}):\n    ran.append({nm})\n    return 1\n",
+                       "extra": "def f(**extra):\n    ran.append(extra)\n    return 1\n"}[shape]
+                ns: dict = {"ran": ran}
+                exec(("async " if is_async else "") + src, ns)
+                f = ns["f"]
+                f.__annotations__ = {"extra" if shape == "extra" else nm: int}
+                w = validate_signature(f)
+                for bad in ("not an int", None, 1.5):
+                    del ran[:]
+                    try:
+                        r = w(bad) if shape in ("posonly",) else w(**{nm: bad}) if shape in ("poskw", "kwonly", "extra") else None
+                        r = drive(r) if is_async else r
+                        exc = None
+                    except BaseException as e:  # noqa
+                        r, exc = None, e
+                    key = nm
+                    if type(exc) is not InvalidArgsError or ran or key not in exc.errs:
+                        return {"signature": "C08:parameter-name",
+                                "what": f"{'async ' if is_async else ''}function with an int-annotated {shape} parameter named {nm!r} called with {bad!r}: "
+                                        f"expected InvalidArgsError naming {key!r} before the body runs; ended with {exc!r}, returned {r!r}, body runs {ran!r}"}
+                # and a conforming value passes
+                del ran[:]
+                try:
+                    r = w(3) if shape == "posonly" else w(**{nm: 3})
+                    r = drive(r) if is_async else r
+                except BaseException as e:  # noqa
+                    return {"signature": "C08:parameter-name", "what": f"parameter named {nm!r} ({shape}): a conforming call raised {e!r}"}
+                if r != 1 or len(ran) != 1:
+                    return {"signature": "C08:parameter-name", "what": f"parameter named {nm!r} ({shape}): a conforming call returned {r!r}, body runs {ran!r}"}
+    return None
+
+
 def run(tier: str, rng: random.Random, proof_ok: bool, oracle_fn=oracle, name="C08") -> dict:
     t0 = time.time()
     n = 2500 if tier == "quick" else 40000
@@ -166,6 +248,12 @@ def run(tier: str, rng: random.Random, proof_ok: bool, oracle_fn=oracle, name="C
         rd = redecoration()
         if rd:
             violations.append({"kind": "oracle", **rd, "replay_case": {"redecoration": True}})
+        rc_ = repeated_calls("C08")
+        if rc_:
+            violations.append({"kind": "oracle", **rc_, "replay_case": {"repeated_calls": True}})
+        pn = parameter_names()
+        if pn:
+            violations.append({"kind": "oracle", **pn, "replay_case": {"parameter_names": True}})
     # overlapping calls of one decorated coroutine function
     npairs = 150 if tier == "quick" else 3000
     pairs_run = 0
@@ -251,6 +339,14 @@ def replay(path: str, oracle_fn=oracle) -> int:
     if not cj:
         print("replay file names a broken obligation, no input:", j.get("what"))
         return 1
+    if cj.get("repeated_calls"):
+        r = repeated_calls("C08")
+        print("property violated: " + r["what"] if r else "property holds for repeated calls of one decorated function")
+        return 1 if r else 0
+    if cj.get("parameter_names"):
+        r = parameter_names()
+        print("property violated: " + r["what"] if r else "property holds whatever the parameters are called")
+        return 1 if r else 0
     if cj.get("redecoration"):
         r = redecoration()
         print("property violated: " + r["what"] if r else "decorating a decorated function checks under both sets of options")
